@@ -131,12 +131,16 @@ Definition cx_tick (c : ctx) (d : Z) : ctx :=
 Definition cx_rand (c : ctx) (isn tsval : Z) : ctx :=
   mkCtx (cx_now c) (cx_ip_mtu c) (cx_addr c) (tsval mod 2 ^ 32) (isn mod 2 ^ 32).
 
-(* what `TcpRepr::parse` yields for an emitted segment: the identity (property C06), except that the
-   window-scale option is clamped to 14 (wire/tcp.rs; see [wire_clamp_wscale] in Model/Tcp.v) *)
+(* what `TcpRepr::parse` yields for an emitted segment: every field is re-read from its wire
+   encoding - sequence and acknowledgement numbers are 32-bit fields, the window a 16-bit field, the
+   window-scale option one octet which the parser clamps to 14 (wire/tcp.rs; [wire_clamp_wscale] in
+   Model/Tcp.v).  On the values the socket model emits this is the identity (property C06). *)
 Definition wire_parse (r : tcp_repr) : tcp_repr :=
-  mkRepr (r_src_port r) (r_dst_port r) (r_control r) (r_seq_number r) (r_ack_number r)
-         (r_window_len r) (wire_clamp_wscale (r_window_scale r)) (r_max_seg_size r)
-         (r_sack_permitted r) (r_sack_ranges r) (r_timestamp r) (r_payload r).
+  mkRepr (r_src_port r) (r_dst_port r) (r_control r) (seq_norm (r_seq_number r))
+         (match r_ack_number r with Some a => Some (seq_norm a) | None => None end)
+         (r_window_len r mod 65536)
+         (wire_clamp_wscale (match r_window_scale r with Some v => Some (v mod 256) | None => None end))
+         (r_max_seg_size r) (r_sack_permitted r) (r_sack_ranges r) (r_timestamp r) (r_payload r).
 
 (* ---------- one step of the system ---------- *)
 Definition net_step (st : net) (ev : net_event) : outcome net :=
